@@ -9,7 +9,7 @@ import sys
 import ref
 import spaces
 from core import PY, PYS, HorizonHit, Monitor, exc_summary, horizon
-from mon_code import H, CodeMonitor, flat
+from mon_code import H, CodeMonitor, flat, hz
 from strict import LINE_ATTR, code_diff, code_key, digest64, short, skey, walk_codes
 
 from code_data import Cellvar, CodeData, Constant, Freevar, Jump, Name, NoArg, Varname
@@ -106,7 +106,7 @@ class C09(CodeMonitor):
         self.check_one(case, code, raw, sym, d, stats, "decoded")
         # the canonical re-encoding of the same object
         try:
-            with horizon(H):
+            with horizon(hz(code)):
                 c2 = d.normalize().to_code()
                 d2 = CodeData.from_code(c2)
         except HorizonHit:
@@ -211,7 +211,7 @@ class C09(CodeMonitor):
             tested += 1
             if base is None:
                 try:
-                    with horizon(H):
+                    with horizon(hz(code)):
                         base = code_key(d.to_code())
                 except HorizonHit:
                     return
@@ -219,7 +219,7 @@ class C09(CodeMonitor):
                     return  # C01's business
             d2 = remove_override(d, ins, uses, add, unref, kind, tindex)
             try:
-                with horizon(H):
+                with horizon(hz(code)):
                     c2 = d2.to_code()
             except HorizonHit:
                 stats.outcomes["override-justified-by-failure"] += 1
@@ -271,7 +271,7 @@ class C05(CodeMonitor):
         if d is None:
             return
         try:
-            with horizon(H):
+            with horizon(hz(code)):
                 n = d.normalize()
                 c2 = n.to_code()
         except HorizonHit:
@@ -522,7 +522,7 @@ def check_exec(mon, case, stats):
     stats.sample("X", {"program": src}, per=2)
     stats.evaluations += 1
     try:
-        with horizon(H):
+        with horizon(hz(code)):
             c2 = CodeData.from_code(code).normalize().to_code()
     except HorizonHit:
         stats.violation(case, "normalize-no-termination", "")
